@@ -12,6 +12,7 @@ CORPUS = [
     "\x1b]0;title\x07rest", "\x1b[1", "\x1b[", "\x1b", "tail\x1b", "\x1b[31", "\x1b[31;", "\x1b[;31m", "a\x1b[31mb\x1b[4", "\x1b[\x1b[31mq",
     "\x1b[3\x1b[1mz", "\x1bMup", "\x1b7save\x1b8", "\x1b[4:3mcurly", "\x1b[38;2;1;2;3mrgb\x1b[m", "\x9b31mc1\x9b0m", "\x1b[1 qcursor",
     "def \x1b[34mf\x1b[39m(\x1b[33mx\x1b[39m):\n    \x1b[35mreturn\x1b[39m x\n", "\x1b[31m\x1b[44mhey\x1b[49m\x1b[39m", "plain text only", "",
+    "\x1b[90m50% done\x1b[0m", "%s\x1b[20m%(x)s", "5% extra \x9b97mz", "100%\x1b[99m", "%%\x1b[38;5;1m%d {} {0} \\x1b", "20% faster\x1b[21m",
     "\x1b[999999999mx", "out\x1b[" + "7" * 4301 + "Aput\n", "a\x1b[" + "9" * 300 + "mb", "\x1b[1;2;3;4;5;7mz\x1b[m", "\x1b[Hhome", "\x1b[3Ax\x1b[2By\x1b[5Cz\x1b[1D", "x\x1b[0Ky\x1b[1Jz",
 ]
 
@@ -20,7 +21,7 @@ class C17(PureCheck):
     pid = "C17"
     rule = ("every string of length <=4 (quick) / <=5 (thorough) over the 13-symbol alphabet {a, newline, ESC, 0x9B, '[', "
             "'1', '3', ';', '?', space, 'm', 'H', 'K'} plus seeded random strings of length 5..10 over it and a corpus of "
-            "real-world samples (pygments-style, ESC[m, 38;5;n, cursor moves, OSC, truncated/nested sequences) and numeric control sequences with every parameter list of <=2 (thorough <=3, plus sampled longer ones) over a 22-number vocabulary (SGR codes supported and not, 38/48/58 selectors cut off at every point, empty parameters); fmtstr and "
+            "real-world samples (pygments-style, text that looks like a % / {} format string next to unsupported sequences, ESC[m, 38;5;n, cursor moves, OSC, truncated/nested sequences) and numeric control sequences with every parameter list of <=2 (thorough <=3, plus sampled longer ones) over a 22-number vocabulary (SGR codes supported and not, 38/48/58 selectors cut off at every point, empty parameters); fmtstr and "
             "FmtStr.from_str alternately; the result text is validated by TLC against the ECMA-48 scanner of Scan.tla. "
             "distinct_nontrivial = distinct inputs containing an introducer (ESC or 0x9B)")
     exhaustive = {"quick": False, "thorough": False}
@@ -53,7 +54,8 @@ class C17(PureCheck):
         for k, ps in enumerate(lists):
             intro = "\x1b[" if k % 3 else "\x9b"
             fin = "m" if k % 5 else rng.choice("HKAJ")
-            yield {"op": "any", "s": enc.enc_text("a" + intro + ";".join(ps) + fin + "b\x1b[0mc"), "via": k % 2}
+            lead = ("a", "50% d", "%s ", "{} %(n)s")[k % 4]       # text that looks like a format string to % / str.format
+            yield {"op": "any", "s": enc.enc_text(lead + intro + ";".join(ps) + fin + "b\x1b[0mc"), "via": k % 2}
         for s in CORPUS:
             yield {"op": "any", "s": enc.enc_text(s), "via": 0}
             yield {"op": "any", "s": enc.enc_text(s), "via": 1}
